@@ -6,7 +6,7 @@ paths whose accumulated linear constraints contradict each other are pruned.
 Subclasses interpret the elements they care about (`on_elem`) and receive
 each completed path (`on_stop`)."""
 from . import lin as L
-from .ir import sk, pp, cval, apath, ASSIGN_OPS, NEG, CMP_OPS
+from .ir import sk, pp, cval, apath, ASSIGN_OPS, NEG, CMP_OPS, FLIP as ir_FLIP
 from .facts import AnalysisBroken
 
 
@@ -40,8 +40,36 @@ def _negatoms(at):
     return tuple((k, -v) for k, v in at)
 
 
+_ZERO = {"k": "Int", "v": 0}
+
+
+def _conv_signed(e):
+    """Is e a non-constant signed integer converted implicitly to an unsigned type?"""
+    if e is None or e.get("k") != "ICast":
+        return False
+    t = e.get("t") or {}
+    if t.get("k") != "int" or t.get("signed") is not False:
+        return False
+    inner = sk(e)
+    it = inner.get("t") or {}
+    if cval(inner) is not None:
+        return False
+    # a chain of conversions that starts from a signed integer of the same or smaller size
+    x = e
+    while x.get("k") == "ICast":
+        x = x["a"][0]
+        xt = x.get("t") or {}
+        if xt.get("k") == "int" and xt.get("signed") is False and xt.get("bits", 0) < t.get("bits", 64):
+            return False       # zero-extended from a narrower unsigned type
+    return it.get("k") == "int" and bool(it.get("signed"))
+
+
 class Walker:
     maxpaths = 200000
+
+    def _nonneg(self, st, e):
+        fm = self.lin(e, st)
+        return fm is not None and self.implied(st, fm)
 
     def __init__(self, f):
         self.f = f
@@ -76,9 +104,20 @@ class Walker:
             return {k2: c * b[1] for k2, c in a[0].items() if c * b[1]}, a[1] * b[1]
         if k == "Bin" and e["op"] in ASSIGN_OPS:
             return self._lin(sk(e["a"][0]), st)
+        if k == "Cond":
+            t = st.truth.get(e["a"][0].get("n"), st.truth.get(sk(e["a"][0]).get("n")))
+            if t is True:
+                return self._lin(sk(e["a"][1]), st)
+            if t is False:
+                return self._lin(sk(e["a"][2]), st)
+            return None
         key = pp(e)
         if key in st.env:
             return st.env[key]
+        return self.atom(key, e, st)
+
+    def atom(self, key, e, st):
+        """Linear form of an expression the environment knows nothing about."""
         return {key: 1}, 0
 
     # ---- constraints
@@ -122,6 +161,27 @@ class Walker:
         for at2, b2 in st.cons:
             if at2 == at and b2 >= bound:
                 return True
+        # sum of two constraints (one Fourier-Motzkin step), then of three
+        want = dict(at)
+        cons = list(dict.fromkeys(st.cons))
+        for i, (a1, b1) in enumerate(cons):
+            for a2, b2 in cons[i + 1:]:
+                sm = dict(a1)
+                for k2, v in a2:
+                    sm[k2] = sm.get(k2, 0) + v
+                sm = {k2: v for k2, v in sm.items() if v}
+                if sm == want and b1 + b2 >= bound:
+                    return True
+        if len(cons) <= 40:
+            for i, (a1, b1) in enumerate(cons):
+                for j, (a2, b2) in enumerate(cons[i + 1:], i + 1):
+                    for a3, b3 in cons[j + 1:]:
+                        sm = dict(a1)
+                        for k2, v in a2 + a3:
+                            sm[k2] = sm.get(k2, 0) + v
+                        sm = {k2: v for k2, v in sm.items() if v}
+                        if sm == want and b1 + b2 + b3 >= bound:
+                            return True
         return False
 
     def assume(self, st, cond, truth):
@@ -135,9 +195,25 @@ class Walker:
             return self.assume(st, c["a"][0], not truth)
         if c.get("k") == "Bin" and c["op"] in CMP_OPS:
             op = c["op"] if truth else NEG[c["op"]]
+            l, r = c["a"][0], c["a"][1]
+            cl, cr = _conv_signed(l), _conv_signed(r)
+            if cl or cr:
+                # a signed value compared as unsigned: a negative value counts as huge
+                nonneg = lambda x: self._nonneg(st, x)
+                if cl and cr:
+                    if not (nonneg(l) and nonneg(r)):
+                        return True
+                else:
+                    x, u, xop = (l, r, op) if cl else (r, l, ir_FLIP[op])
+                    if xop in ("<", "<=", "=="):
+                        # x below an unsigned value: x is non-negative as well
+                        if not self.add_cmp(st, x, ">=", _ZERO):
+                            return False
+                    elif not nonneg(x):
+                        return True
             if op == "!=":
                 return True
-            return self.add_cmp(st, c["a"][0], op, c["a"][1])
+            return self.add_cmp(st, l, op, r)
         v = cval(c)
         if v is not None:
             return bool(v) == truth
